@@ -78,5 +78,7 @@ def cases(rng, tier):
                     f.append("column %d name/type accessors differ" % ci)
             return f
         rows = sum(len(col["vals"]) for sl in t["slices"] for col in sl)
-        yield Case("f%d" % i, ["in 1 %s" % hx(data), "session 1 *"], oracle=oracle, nontrivial=rows > 0,
-                   meta={"dist": {"cols": len(t["cols"]), "slices": len(t["slices"]), "unused": len(unused), "permuted": order != list(range(total))}})
+        # every third stream is not seekable (a pipe): a full read needs nothing but fread
+        piped = i % 3 == 2
+        yield Case("f%d" % i, ["%s 1 %s" % ("inpipe" if piped else "in", hx(data)), "session 1 *"], oracle=oracle, nontrivial=rows > 0,
+                   meta={"dist": {"cols": len(t["cols"]), "slices": len(t["slices"]), "unused": len(unused), "permuted": order != list(range(total)), "piped": piped}})
